@@ -3,7 +3,9 @@
 set -u
 P="$1"; PROP="$2"; TIER="${3:-quick}"
 if [ -n "$(git -C /repo status --porcelain)" ]; then echo "refusing: /repo has uncommitted changes"; exit 9; fi
+cp /verif/evidence/$PROP.json /verif/work/evidence_$PROP.saved 2>/dev/null
 git -C /repo apply "$P" || { echo "patch does not apply"; exit 9; }
 /verif/check "$PROP" "$TIER"; rc=$?
 git -C /repo checkout -- . 
+cp /verif/work/evidence_$PROP.saved /verif/evidence/$PROP.json 2>/dev/null
 echo "exit=$rc"
